@@ -290,10 +290,10 @@ Proof.
     unfold ext_multi. cbn [pk_cost]. rewrite map_length, (num_cost_multi _ _ Hk1 Hk2), (sum_pklen_multi c ks Hk3). lia.
   - (* multi_a *) apply andb_prop in Hw. destruct Hw as [Hw Hk4]. apply andb_prop in Hw. destruct Hw as [Hw Hk3].
     apply andb_prop in Hw. destruct Hw as [Hk1 Hk2]. apply N.ltb_lt in Hk1. apply N.leb_le in Hk2. apply N.leb_le in Hk3.
-    unfold ext_multi_a. cbn [pk_cost]. rewrite (num_cost_multi_a _ _ Hk1 Hk3), (sum_pklen_33 c ks Hk4). lia.
+    unfold ext_multi_a. cbn [pk_cost]. rewrite (sum_pklen_33 c ks Hk4). lia.
   - apply andb_prop in Hw. destruct Hw as [Hw Hk4]. apply andb_prop in Hw. destruct Hw as [Hw Hk3].
     apply andb_prop in Hw. destruct Hw as [Hk1 Hk2]. apply N.ltb_lt in Hk1. apply N.leb_le in Hk2. apply N.leb_le in Hk3.
-    unfold ext_multi_a. cbn [pk_cost]. rewrite (num_cost_multi_a _ _ Hk1 Hk3), (sum_pklen_33 c ks Hk4). lia.
+    unfold ext_multi_a. cbn [pk_cost]. rewrite (sum_pklen_33 c ks Hk4). lia.
 Qed.
 
 (* since /repo 4c5160f8 the class contains the scripts with uncompressed keys of the harness contexts *)
